@@ -41,10 +41,10 @@ type vSessIn struct {
 
 type vSessOut struct {
 	compressed bool // (wire side) the message's first frame had RSV1 set: its payload is DEFLATE data
-	kind    byte // 'm' data message, 'o' pong, 'i' ping (payload free), 'c' close
-	typ     MessageType
-	payload []byte
-	code    int
+	kind       byte // 'm' data message, 'o' pong, 'i' ping (payload free), 'c' close
+	typ        MessageType
+	payload    []byte
+	code       int
 }
 
 type vSession struct {
@@ -64,12 +64,12 @@ type vSession struct {
 	budget     time.Duration
 	trace      string
 	// open: a streamed message begun by one step and not yet finished (fragments written so far in openSoFar)
-	open        io.WriteCloser
-	openCancel  context.CancelFunc
-	openSoFar   []byte
-	unfinished  bool // the connection ended while a streamed message was unfinished
-	comp        bool // every non-empty message written is compressed (threshold 1): concrete payloads, pool discipline watched
-	intruded    bool // a write reported success while another message was open: only the structure of the wire is judged
+	open       io.WriteCloser
+	openCancel context.CancelFunc
+	openSoFar  []byte
+	unfinished bool // the connection ended while a streamed message was unfinished
+	comp       bool // every non-empty message written is compressed (threshold 1): concrete payloads, pool discipline watched
+	intruded   bool // a write reported success while another message was open: only the structure of the wire is judged
 }
 
 // local: payload of a message the application writes: arbitrary bytes, or - comp mode, where the real compressor runs
